@@ -120,10 +120,13 @@ func (c *fRegistryImpl) dispatch(opid uint64, frame []byte) error {
 	if !ok {
 		logger().Warn("frugal: unregistered context")
 		c.mu.RUnlock()
+		verifYield("dispatch.miss", opid)
 		return nil
 	}
 	c.mu.RUnlock()
+	verifYield("dispatch.send", opid)
 
 	resultC <- frame
+	verifYield("dispatch.sent", opid)
 	return nil
 }
